@@ -22,6 +22,7 @@ import (
 	"time"
 
 	"github.com/hydraide/hydraide/app/core/hydra"
+	"github.com/hydraide/hydraide/app/verifhook"
 	hydrapb "github.com/hydraide/hydraide/sdk/go/hydraidego/v3/hydraidepbgo"
 	"google.golang.org/grpc/metadata"
 	"verif/harness/common"
@@ -117,11 +118,15 @@ type wop struct {
 	Noop   bool   `json:"noop,omitempty"` // set: write the value the key already has
 	Status string `json:"status"`         // reported by the engine
 	Val    int64  `json:"val"`            // value after the op / removed value
+	Batch  int    `json:"batch,omitempty"` // consecutive sets with the same non-zero id go into ONE Set request
 }
 
 type phase struct {
+	Pre     string  `json:"pre,omitempty"`   // "destroy": gateway Destroy first; "idle": wait for the idle close first
 	Sub     []int   `json:"sub,omitempty"`   // subscribers that subscribe before the phase
 	Unsub   []int   `json:"unsub,omitempty"` // ... unsubscribe before the phase
+	Churn   bool    `json:"concurrent_churn,omitempty"` // the subscribes/unsubscribes run concurrently with each other
+	Shared  []int   `json:"shared_keys,omitempty"`      // all writers set unique values on these keys (same-key concurrency)
 	Writers [][]wop `json:"writers"`
 }
 
@@ -129,21 +134,43 @@ type ccase struct {
 	Kind    string  `json:"kind"`
 	NSubs   int     `json:"nsubs"`
 	NKeys   int     `json:"nkeys"`
-	InMem   bool    `json:"in_memory"`
+	Pattern string  `json:"pattern"` // c19p: write interval 1 s; c19w: write-through (0); c19m: in-memory; c19i: idle close 1 s
 	Noops   bool    `json:"noop_saves"`
+	StopRace bool   `json:"stop_race,omitempty"` // hook-driven schedule: an unsubscribe is held at StopSendingEvents while another client subscribes
 	Phases  []phase `json:"phases"`
 	history []string
+	anchor  bool
+	lost    string // a subscription that was accepted but is not registered (case abandoned)
 	recv    [][]omsg
 	overlap int
 	errs    []string
 }
 
 func genCase(r *common.Rng, corpusKind int) *ccase {
-	c := &ccase{Kind: "random", NSubs: 1 + r.Intn(2), NKeys: 2 + r.Intn(7), InMem: r.Chance(30), Noops: r.Chance(25)}
+	c := &ccase{Kind: "random", NSubs: 1 + r.Intn(3), NKeys: 2 + r.Intn(7), Noops: r.Chance(25)}
+	switch x := r.Intn(100); {
+	case x < 35:
+		c.Pattern = "c19w"
+	case x < 60:
+		c.Pattern = "c19p"
+	case x < 95:
+		c.Pattern = "c19m"
+	default:
+		c.Pattern = "c19i"
+	}
 	np := 2 + r.Intn(5)
 	subscribed := make([]bool, c.NSubs)
+	uniq := int64(100000)
+	batch := 0
+	idles := 0
 	for p := 0; p < np; p++ {
 		var ph phase
+		if p > 0 && r.Chance(8) {
+			ph.Pre = "destroy"
+		} else if p > 0 && c.Pattern == "c19i" && idles < 1 && r.Chance(50) {
+			ph.Pre = "idle"
+			idles++
+		}
 		for s := 0; s < c.NSubs; s++ {
 			if !subscribed[s] && (p == 0 && r.Chance(70) || p > 0 && r.Chance(50)) {
 				ph.Sub = append(ph.Sub, s)
@@ -153,30 +180,59 @@ func genCase(r *common.Rng, corpusKind int) *ccase {
 				subscribed[s] = false
 			}
 		}
+		ph.Churn = r.Chance(50)
 		nw := 1
 		if r.Chance(70) {
 			nw = 1 + r.Intn(8)
+		}
+		if r.Chance(30) {
+			// same-key concurrency: every writer sets fresh values on the shared keys
+			if nw < 2 {
+				nw = 2 + r.Intn(4)
+			}
+			ph.Shared = []int{r.Intn(c.NKeys)}
+			if c.NKeys > 1 && r.Chance(30) {
+				ph.Shared = append(ph.Shared, (ph.Shared[0]+1)%c.NKeys)
+			}
+			ph.Writers = make([][]wop, nw)
+			for w := 0; w < nw; w++ {
+				n := 1 + r.Intn(5)
+				for j := 0; j < n; j++ {
+					uniq++
+					ph.Writers[w] = append(ph.Writers[w], wop{Kind: "set", Key: ph.Shared[r.Intn(len(ph.Shared))], Req: uniq})
+				}
+			}
+			c.Phases = append(c.Phases, ph)
+			continue
 		}
 		if nw > c.NKeys {
 			nw = c.NKeys
 		}
 		ph.Writers = make([][]wop, nw)
 		for w := 0; w < nw; w++ {
+			// keys owned by writer w in this phase: k mod nw == w
+			var own []int
+			for k := 0; k < c.NKeys; k++ {
+				if k%nw == w {
+					own = append(own, k)
+				}
+			}
 			n := 1 + r.Intn(6)
 			for j := 0; j < n; j++ {
-				// keys owned by writer w in this phase: k mod nw == w
-				var own []int
-				for k := 0; k < c.NKeys; k++ {
-					if k%nw == w {
-						own = append(own, k)
-					}
-				}
 				o := wop{Key: own[r.Intn(len(own))]}
 				x := r.Intn(100)
 				switch {
-				case x < 55:
+				case x < 45:
 					o.Kind, o.Req = "set", int64(r.Intn(1000))
 					o.Noop = c.Noops && r.Chance(35)
+				case x < 55:
+					// one Set request with several key/value pairs (a key may occur twice)
+					batch++
+					m := 2 + r.Intn(3)
+					for i := 0; i < m; i++ {
+						ph.Writers[w] = append(ph.Writers[w], wop{Kind: "set", Key: own[r.Intn(len(own))], Req: int64(r.Intn(1000)), Batch: batch})
+					}
+					continue
 				case x < 70:
 					o.Kind = "delete"
 				case x < 82:
@@ -195,22 +251,39 @@ func genCase(r *common.Rng, corpusKind int) *ccase {
 func corpus() []*ccase {
 	set := func(k int, v int64) wop { return wop{Kind: "set", Key: k, Req: v} }
 	noop := func(k int) wop { return wop{Kind: "set", Key: k, Noop: true} }
-	return []*ccase{
+	seq := func(k int, from, n int64) []wop {
+		var l []wop
+		for i := int64(0); i < n; i++ {
+			l = append(l, set(k, from+i))
+		}
+		return l
+	}
+	cs := []*ccase{
 		// the witness of one_event_per_change_refuted_sticky: subscribe; set k 1; set k 1
-		{Kind: "corpus-noop", NSubs: 1, NKeys: 1, Noops: true, Phases: []phase{
+		{Kind: "corpus-noop", Pattern: "c19p", NSubs: 1, NKeys: 1, Noops: true, Phases: []phase{
 			{Sub: []int{0}, Writers: [][]wop{{set(0, 1), noop(0)}}}}},
 		// the witness of sends_not_concurrent_refuted_without_mutex: two writers, two keys, many events
-		{Kind: "corpus-two-writers", NSubs: 1, NKeys: 2, Phases: []phase{
-			{Sub: []int{0}, Writers: [][]wop{
-				{set(0, 1), set(0, 2), set(0, 3), set(0, 4), set(0, 5), set(0, 6), set(0, 7), set(0, 8)},
-				{set(1, 1), set(1, 2), set(1, 3), set(1, 4), set(1, 5), set(1, 6), set(1, 7), set(1, 8)}}}}},
+		{Kind: "corpus-two-writers", Pattern: "c19p", NSubs: 1, NKeys: 2, Phases: []phase{
+			{Sub: []int{0}, Writers: [][]wop{seq(0, 1, 8), seq(1, 1, 8)}}}},
 		// window: events only while subscribed; swamp emptied and re-created in between
-		{Kind: "corpus-window", NSubs: 1, NKeys: 2, Phases: []phase{
+		{Kind: "corpus-window", Pattern: "c19p", NSubs: 1, NKeys: 2, Phases: []phase{
 			{Writers: [][]wop{{set(0, 1)}}},
 			{Sub: []int{0}, Writers: [][]wop{{set(0, 2), {Kind: "delete", Key: 0}, set(1, 5), {Kind: "shift", Key: 1}, set(0, 9)}}},
 			{Unsub: []int{0}, Writers: [][]wop{{set(0, 3)}}},
 			{Sub: []int{0}, Writers: [][]wop{{{Kind: "incr", Key: 0, Req: 4}, {Kind: "incr", Key: 1, Req: 2}}}}}},
 	}
+	// same-key concurrency on every kind of swamp (write-through releases the guard early)
+	for _, pat := range []string{"c19w", "c19w", "c19p", "c19m"} {
+		cs = append(cs, &ccase{Kind: "corpus-same-key", Pattern: pat, NSubs: 1, NKeys: 1, Phases: []phase{
+			{Sub: []int{0}, Shared: []int{0}, Writers: [][]wop{seq(0, 1000, 6), seq(0, 2000, 6), seq(0, 3000, 6)}},
+			{Writers: [][]wop{{{Kind: "delete", Key: 0}}}},
+			{Shared: []int{0}, Writers: [][]wop{seq(0, 4000, 5), seq(0, 5000, 5)}}}})
+	}
+	// hook-driven schedules around StopSendingEvents (run one at a time)
+	for i := 0; i < 4; i++ {
+		cs = append(cs, &ccase{Kind: "corpus-stop-race", Pattern: []string{"c19p", "c19m", "c19w", "c19p"}[i], NSubs: 3, NKeys: 2, StopRace: true})
+	}
+	return cs
 }
 
 // ---- execution ----------------------------------------------------------------------------------
@@ -219,201 +292,435 @@ const island = 1
 
 func kname(k int) string { return "k" + strconv.Itoa(k) }
 
-func runCase(srv *rig.Server, ci int, c *ccase) {
-	pat := "c19p"
-	if c.InMem {
-		pat = "c19m"
-	}
-	swamp := fmt.Sprintf("%s/case%d/s", pat, ci)
-	sname := rig.Name(swamp)
-	hy := srv.Zeus.GetHydra()
-	ctx := context.Background()
-	streams := make([]*fakeStream, c.NSubs)
-	all := make([][]omsg, c.NSubs)
-	cur := map[int]int64{}
-	has := map[int]bool{}
-	nsubbed := 0
-	waitCount := func(n int) {
-		dl := time.Now().Add(10 * time.Second)
-		for hydra.VerifEventSubscriberCount(hy, sname) != n {
-			if time.Now().After(dl) {
-				c.errs = append(c.errs, fmt.Sprintf("subscriber count did not reach %d", n))
-				return
-			}
-			time.Sleep(50 * time.Microsecond)
+type runner struct {
+	srv     *rig.Server
+	c       *ccase
+	swamp   string
+	streams []*fakeStream
+	all     [][]omsg
+	cur     map[int]int64
+	has     map[int]bool
+	mu      sync.Mutex // protects cur/has
+	nsubbed int
+	everSub bool
+}
+
+func (r *runner) errf(f string, a ...any) { r.c.errs = append(r.c.errs, fmt.Sprintf(f, a...)) }
+
+// wait until n callbacks are registered and, if the swamp is in memory, it is sending events
+// (SubscribeToSwampEvents activates a loaded swamp in a deferred call after registering)
+func (r *runner) settleWithin(n int, d time.Duration) bool {
+	hy, sname := r.srv.Zeus.GetHydra(), rig.Name(r.swamp)
+	dl := time.Now().Add(d)
+	for hydra.VerifEventSubscriberCount(hy, sname) != n {
+		if time.Now().After(dl) {
+			return false
 		}
-		// SubscribeToSwampEvents activates a loaded swamp in a deferred call, after the callback
-		// is registered: wait for it, a write in between would race with the subscription
-		for n > 0 {
-			loaded, active := hydra.VerifEventSendingState(hy, sname)
-			if !loaded || active {
-				break
-			}
-			if time.Now().After(dl) {
-				c.errs = append(c.errs, "loaded swamp did not start sending events after subscribe")
-				return
-			}
-			time.Sleep(50 * time.Microsecond)
+		time.Sleep(50 * time.Microsecond)
+	}
+	return true
+}
+
+func (r *runner) settle(n int) {
+	if !r.settleWithin(n, 30*time.Second) {
+		r.errf("subscriber count did not reach %d", n)
+	}
+}
+
+func (r *runner) settleActive() {
+	hy, sname := r.srv.Zeus.GetHydra(), rig.Name(r.swamp)
+	dl := time.Now().Add(30 * time.Second)
+	for {
+		loaded, active := hydra.VerifEventSendingState(hy, sname)
+		if !loaded || active {
+			return
 		}
-	}
-	unsubscribe := func(s int) {
-		f := streams[s]
-		f.cancel()
-		<-f.done
-		all[s] = append(all[s], f.msgs...)
-		atomic.AddInt32(&f.overlaps, 0)
-		c.overlap += int(f.overlaps)
-		streams[s] = nil
-		nsubbed--
-		waitCount(nsubbed)
-		c.history = append(c.history, fmt.Sprintf("CUnsub %d", s))
-	}
-	// with concurrent writers keep one untouched record in the swamp, so that it is never
-	// auto-destroyed while other writers are inside it (that race belongs to C16)
-	for _, ph := range c.Phases {
-		if len(ph.Writers) > 1 {
-			v := int64(0)
-			_, _ = srv.GW.Set(ctx, &hydrapb.SetRequest{Swamps: []*hydrapb.SwampRequest{{
-				IslandID: island, SwampName: swamp, CreateIfNotExist: true, Overwrite: true,
-				KeyValues: []*hydrapb.KeyValuePair{{Key: "anchor", Int64Val: &v}}}}})
-			has[-1] = true
-			break
+		if time.Now().After(dl) {
+			return // reported by the oracle as missing events, with the history as the replay
 		}
+		time.Sleep(50 * time.Microsecond)
 	}
-	for _, ph := range c.Phases {
+}
+
+func (r *runner) startSub(s int) {
+	fctx, cancel := context.WithCancel(context.Background())
+	f := &fakeStream{ctx: fctx, cancel: cancel, done: make(chan struct{})}
+	if len(r.all[s]) > 0 { // sequence numbers of successive streams of one subscriber keep increasing
+		f.seq = r.all[s][len(r.all[s])-1].End + 1
+	}
+	r.streams[s] = f
+	go func() {
+		_ = r.srv.GW.SubscribeToEvents(&hydrapb.SubscribeToEventsRequest{IslandID: island, SwampName: r.swamp}, f)
+		close(f.done)
+	}()
+}
+
+func (r *runner) stopSub(s int) {
+	f := r.streams[s]
+	f.cancel()
+	<-f.done
+	r.all[s] = append(r.all[s], f.msgs...)
+	r.c.overlap += int(atomic.LoadInt32(&f.overlaps))
+	r.streams[s] = nil
+}
+
+func (r *runner) churn(ph phase) {
+	if ph.Churn && len(ph.Sub)+len(ph.Unsub) > 1 {
+		var wg sync.WaitGroup
 		for _, s := range ph.Unsub {
-			unsubscribe(s)
+			wg.Add(1)
+			go func(s int) { defer wg.Done(); r.stopSub(s) }(s)
 		}
 		for _, s := range ph.Sub {
-			fctx, cancel := context.WithCancel(ctx)
-			f := &fakeStream{ctx: fctx, cancel: cancel, done: make(chan struct{})}
-			// sequence numbers of successive streams of one subscriber keep increasing
-			if len(all[s]) > 0 {
-				f.seq = all[s][len(all[s])-1].End + 1
-			}
-			streams[s] = f
-			go func() {
-				_ = srv.GW.SubscribeToEvents(&hydrapb.SubscribeToEventsRequest{IslandID: island, SwampName: swamp}, f)
-				close(f.done)
-			}()
-			nsubbed++
-			waitCount(nsubbed)
-			c.history = append(c.history, fmt.Sprintf("CSub %d", s))
-		}
-		// decide no-op values now (the owner knows the current value of its keys), run writers
-		var wg sync.WaitGroup
-		var mu sync.Mutex // protects cur/has (different keys per writer, but one map)
-		for w := range ph.Writers {
-			wg.Add(1)
-			go func(ops []wop) {
-				defer wg.Done()
-				for j := range ops {
-					o := &ops[j]
-					mu.Lock()
-					cv, ex := cur[o.Key], has[o.Key]
-					mu.Unlock()
-					switch o.Kind {
-					case "set":
-						if o.Noop && ex {
-							o.Req = cv
-						} else {
-							o.Noop = false
-							if ex && o.Req == cv {
-								o.Req = cv + 1
-							}
-						}
-						v := o.Req
-						resp, err := srv.GW.Set(ctx, &hydrapb.SetRequest{Swamps: []*hydrapb.SwampRequest{{
-							IslandID: island, SwampName: swamp, CreateIfNotExist: true, Overwrite: true,
-							KeyValues: []*hydrapb.KeyValuePair{{Key: kname(o.Key), Int64Val: &v}}}}})
-						if err != nil || len(resp.GetSwamps()) != 1 || len(resp.GetSwamps()[0].GetKeysAndStatuses()) != 1 {
-							o.Status = "ERROR"
-							break
-						}
-						o.Status = resp.GetSwamps()[0].GetKeysAndStatuses()[0].GetStatus().String()
-						o.Val = v
-						ex, cv = true, v
-					case "delete":
-						resp, err := srv.GW.Delete(ctx, &hydrapb.DeleteRequest{Swamps: []*hydrapb.DeleteRequest_SwampKeys{{
-							IslandID: island, SwampName: swamp, Keys: []string{kname(o.Key)}}}})
-						if err != nil || len(resp.GetResponses()) != 1 {
-							o.Status = "ERROR"
-							break
-						}
-						r0 := resp.GetResponses()[0]
-						if r0.ErrorCode != nil || len(r0.GetKeyStatuses()) != 1 {
-							o.Status = "NOT_FOUND" // swamp does not exist
-						} else {
-							o.Status = r0.GetKeyStatuses()[0].GetStatus().String()
-						}
-						if o.Status == "DELETED" {
-							o.Val = cv
-							ex = false
-						}
-					case "shift":
-						resp, err := srv.GW.ShiftByKeys(ctx, &hydrapb.ShiftByKeysRequest{IslandID: island, SwampName: swamp, Keys: []string{kname(o.Key)}})
-						if err != nil { // the swamp does not exist
-							o.Status = "NOT_FOUND"
-							break
-						}
-						if len(resp.GetTreasures()) == 1 {
-							o.Status, o.Val = "DELETED", tval(resp.GetTreasures()[0])
-							ex = false
-						} else {
-							o.Status = "NOT_FOUND"
-						}
-					case "incr":
-						resp, err := srv.GW.IncrementInt64(ctx, &hydrapb.IncrementInt64Request{IslandID: island, SwampName: swamp, Key: kname(o.Key), IncrementBy: o.Req})
-						if err != nil || !resp.GetIsIncremented() {
-							o.Status = "ERROR"
-							break
-						}
-						if ex {
-							o.Status = "UPDATED"
-						} else {
-							o.Status = "NEW"
-						}
-						o.Val = resp.GetValue()
-						ex, cv = true, o.Val
-					}
-					mu.Lock()
-					cur[o.Key], has[o.Key] = cv, ex
-					mu.Unlock()
-				}
-			}(ph.Writers[w])
+			r.startSub(s)
 		}
 		wg.Wait()
-		for _, ops := range ph.Writers {
-			for _, o := range ops {
-				if o.Status == "ERROR" {
-					c.errs = append(c.errs, fmt.Sprintf("%s k%d failed", o.Kind, o.Key))
-					continue
+		r.nsubbed += len(ph.Sub) - len(ph.Unsub)
+		if !r.everSub && len(ph.Sub) > 1 {
+			// several clients subscribe at the same time to a swamp nobody subscribed to before:
+			// every accepted SubscribeToEvents must end up registered
+			if !r.settleWithin(r.nsubbed, 3*time.Second) {
+				r.c.lost = fmt.Sprintf("%d clients subscribed concurrently as the first subscribers of the swamp; only %d callbacks are registered",
+					len(ph.Sub), hydra.VerifEventSubscriberCount(r.srv.Zeus.GetHydra(), rig.Name(r.swamp)))
+			}
+		} else {
+			r.settle(r.nsubbed)
+		}
+	} else {
+		for _, s := range ph.Unsub {
+			r.stopSub(s)
+			r.nsubbed--
+			r.settle(r.nsubbed)
+		}
+		for _, s := range ph.Sub {
+			r.startSub(s)
+			r.nsubbed++
+			r.settle(r.nsubbed)
+		}
+	}
+	if len(ph.Sub) > 0 {
+		r.everSub = true
+	}
+	if r.nsubbed > 0 && len(ph.Sub) > 0 {
+		r.settleActive()
+	}
+	for _, s := range ph.Unsub {
+		r.c.history = append(r.c.history, fmt.Sprintf("CUnsub %d", s))
+	}
+	for _, s := range ph.Sub {
+		r.c.history = append(r.c.history, fmt.Sprintf("CSub %d", s))
+	}
+}
+
+func (r *runner) setReq(kvs []*hydrapb.KeyValuePair) ([]string, bool) {
+	resp, err := r.srv.GW.Set(context.Background(), &hydrapb.SetRequest{Swamps: []*hydrapb.SwampRequest{{
+		IslandID: island, SwampName: r.swamp, CreateIfNotExist: true, Overwrite: true, KeyValues: kvs}}})
+	if err != nil || len(resp.GetSwamps()) != 1 || len(resp.GetSwamps()[0].GetKeysAndStatuses()) != len(kvs) {
+		return nil, false
+	}
+	out := make([]string, len(kvs))
+	for i, ks := range resp.GetSwamps()[0].GetKeysAndStatuses() {
+		out[i] = ks.GetStatus().String()
+	}
+	return out, true
+}
+
+func (r *runner) get(k int) (bool, int64) {
+	r.mu.Lock()
+	defer r.mu.Unlock()
+	return r.has[k], r.cur[k]
+}
+func (r *runner) put(k int, ex bool, v int64) {
+	r.mu.Lock()
+	r.has[k], r.cur[k] = ex, v
+	r.mu.Unlock()
+}
+
+// one writer: its operations in program order
+func (r *runner) write(ops []wop, shared bool) {
+	ctx := context.Background()
+	for j := 0; j < len(ops); j++ {
+		o := &ops[j]
+		ex, cv := r.get(o.Key)
+		switch o.Kind {
+		case "set":
+			if o.Batch != 0 {
+				// the whole batch in one request; values differ from what the key holds then
+				end := j
+				for end < len(ops) && ops[end].Batch == o.Batch {
+					end++
 				}
-				c.history = append(c.history, "CWrite "+wopTerm(o))
+				sim := map[int]int64{}
+				simHas := map[int]bool{}
+				var kvs []*hydrapb.KeyValuePair
+				for i := j; i < end; i++ {
+					b := &ops[i]
+					e, v := r.get(b.Key)
+					if sh, ok := simHas[b.Key]; ok {
+						e, v = sh, sim[b.Key]
+					}
+					if e && b.Req == v {
+						b.Req = v + 1
+					}
+					sim[b.Key], simHas[b.Key] = b.Req, true
+					val := b.Req
+					kvs = append(kvs, &hydrapb.KeyValuePair{Key: kname(b.Key), Int64Val: &val})
+				}
+				st, ok := r.setReq(kvs)
+				for i := j; i < end; i++ {
+					if !ok {
+						ops[i].Status = "ERROR"
+						continue
+					}
+					ops[i].Status, ops[i].Val = st[i-j], ops[i].Req
+					r.put(ops[i].Key, true, ops[i].Req)
+				}
+				j = end - 1
+				continue
 			}
-		}
-		// an emptied swamp is destroyed; the next write summons a new object
-		live := 0
-		for _, e := range has {
-			if e {
-				live++
+			if !shared {
+				if o.Noop && ex {
+					o.Req = cv
+				} else {
+					o.Noop = false
+					if ex && o.Req == cv {
+						o.Req = cv + 1
+					}
+				}
 			}
+			v := o.Req
+			st, ok := r.setReq([]*hydrapb.KeyValuePair{{Key: kname(o.Key), Int64Val: &v}})
+			if !ok {
+				o.Status = "ERROR"
+				continue
+			}
+			o.Status, o.Val = st[0], v
+			if !shared {
+				r.put(o.Key, true, v)
+			}
+		case "delete":
+			resp, err := r.srv.GW.Delete(ctx, &hydrapb.DeleteRequest{Swamps: []*hydrapb.DeleteRequest_SwampKeys{{
+				IslandID: island, SwampName: r.swamp, Keys: []string{kname(o.Key)}}}})
+			if err != nil || len(resp.GetResponses()) != 1 {
+				o.Status = "ERROR"
+				continue
+			}
+			r0 := resp.GetResponses()[0]
+			if r0.ErrorCode != nil || len(r0.GetKeyStatuses()) != 1 {
+				o.Status = "NOT_FOUND" // swamp does not exist
+			} else {
+				o.Status = r0.GetKeyStatuses()[0].GetStatus().String()
+			}
+			if o.Status == "DELETED" {
+				o.Val = cv
+				r.put(o.Key, false, 0)
+			}
+		case "shift":
+			resp, err := r.srv.GW.ShiftByKeys(ctx, &hydrapb.ShiftByKeysRequest{IslandID: island, SwampName: r.swamp, Keys: []string{kname(o.Key)}})
+			if err != nil { // the swamp does not exist
+				o.Status = "NOT_FOUND"
+				continue
+			}
+			if len(resp.GetTreasures()) == 1 {
+				o.Status, o.Val = "DELETED", tval(resp.GetTreasures()[0])
+				r.put(o.Key, false, 0)
+			} else {
+				o.Status = "NOT_FOUND"
+			}
+		case "incr":
+			resp, err := r.srv.GW.IncrementInt64(ctx, &hydrapb.IncrementInt64Request{IslandID: island, SwampName: r.swamp, Key: kname(o.Key), IncrementBy: o.Req})
+			if err != nil || !resp.GetIsIncremented() {
+				o.Status = "ERROR"
+				continue
+			}
+			if ex {
+				o.Status = "UPDATED"
+			} else {
+				o.Status = "NEW"
+			}
+			o.Val = resp.GetValue()
+			r.put(o.Key, true, o.Val)
 		}
-		if live == 0 {
+	}
+}
+
+func (r *runner) runWriters(ph *phase) {
+	var wg sync.WaitGroup
+	for w := range ph.Writers {
+		wg.Add(1)
+		go func(ops []wop) { defer wg.Done(); r.write(ops, len(ph.Shared) > 0) }(ph.Writers[w])
+	}
+	wg.Wait()
+	var ws []string
+	for _, ops := range ph.Writers {
+		var l []string
+		for _, o := range ops {
+			if o.Status == "ERROR" {
+				r.errf("%s k%d failed", o.Kind, o.Key)
+				continue
+			}
+			l = append(l, wopTerm(o))
+		}
+		ws = append(ws, common.List(l))
+	}
+	r.c.history = append(r.c.history, "CPar "+common.List(ws))
+	// after same-key concurrency only the engine knows which value won: read it
+	for _, k := range ph.Shared {
+		resp, err := r.srv.GW.Get(context.Background(), &hydrapb.GetRequest{Swamps: []*hydrapb.GetSwamp{{
+			IslandID: island, SwampName: r.swamp, Keys: []string{kname(k)}}}})
+		if err != nil || len(resp.GetSwamps()) != 1 || len(resp.GetSwamps()[0].GetTreasures()) != 1 {
+			r.errf("read of shared key k%d failed", k)
+			continue
+		}
+		if !resp.GetSwamps()[0].GetTreasures()[0].GetIsExist() {
+			continue // nobody wrote it in this phase; what the harness knew before still holds
+		}
+		v := tval(resp.GetSwamps()[0].GetTreasures()[0])
+		r.put(k, true, v)
+		r.c.history = append(r.c.history, fmt.Sprintf("CSync %d %s", k, common.Z(v)))
+	}
+	live := 0
+	for _, e := range r.has {
+		if e {
+			live++
+		}
+	}
+	if live == 0 { // an emptied swamp is destroyed; the next write summons a new object
+		r.c.history = append(r.c.history, "CUnload")
+	}
+}
+
+func newRunner(srv *rig.Server, ci int, c *ccase) *runner {
+	return &runner{srv: srv, c: c, swamp: fmt.Sprintf("%s/case%d/s", c.Pattern, ci),
+		streams: make([]*fakeStream, c.NSubs), all: make([][]omsg, c.NSubs), cur: map[int]int64{}, has: map[int]bool{}}
+}
+
+func (r *runner) finish() {
+	for s := range r.streams {
+		if r.streams[s] != nil {
+			r.stopSub(s)
+			r.c.history = append(r.c.history, fmt.Sprintf("CUnsub %d", s))
+		}
+	}
+	for s := range r.all {
+		sort.Slice(r.all[s], func(i, j int) bool { return r.all[s][i].Start < r.all[s][j].Start })
+	}
+	r.c.recv = r.all
+	_, _ = r.srv.GW.Destroy(context.Background(), &hydrapb.DestroyRequest{IslandID: island, SwampName: r.swamp})
+}
+
+func runCase(srv *rig.Server, ci int, c *ccase) {
+	r := newRunner(srv, ci, c)
+	ctx := context.Background()
+	// with concurrent writers keep one untouched record in the swamp, so that it is never
+	// auto-destroyed while other writers are inside it (that race belongs to C16)
+	anchor := func() {
+		o := wop{Kind: "set", Key: c.NKeys, Req: 0}
+		v := int64(0)
+		st, ok := r.setReq([]*hydrapb.KeyValuePair{{Key: kname(o.Key), Int64Val: &v}})
+		if !ok {
+			r.errf("anchor set failed")
+			return
+		}
+		o.Status = st[0]
+		r.has[o.Key] = true
+		c.anchor = true
+		c.history = append(c.history, "CPar "+common.List([]string{common.List([]string{wopTerm(o)})}))
+	}
+	needAnchor := false
+	for _, ph := range c.Phases {
+		if len(ph.Writers) > 1 {
+			needAnchor = true
+		}
+	}
+	if needAnchor {
+		anchor()
+	}
+	for i := range c.Phases {
+		ph := &c.Phases[i]
+		switch ph.Pre {
+		case "destroy":
+			_, _ = srv.GW.Destroy(ctx, &hydrapb.DestroyRequest{IslandID: island, SwampName: r.swamp})
+			r.cur, r.has = map[int]int64{}, map[int]bool{}
+			c.history = append(c.history, "CDestroy")
+			if needAnchor {
+				anchor()
+			}
+		case "idle":
+			time.Sleep(3300 * time.Millisecond) // CloseAfterIdle 1 s + 1 s gap, checked every second
 			c.history = append(c.history, "CUnload")
 		}
+		r.churn(*ph)
+		if c.lost != "" {
+			c.Phases = c.Phases[:i+1]
+			for w := range ph.Writers {
+				ph.Writers[w] = nil
+			}
+			break
+		}
+		r.runWriters(ph)
 	}
-	for s := range streams {
-		if streams[s] != nil {
-			unsubscribe(s)
+	r.finish()
+	if c.lost != "" { // nothing further can be judged: the Go-side oracle reports the lost subscription
+		c.history = nil
+		for s := range c.recv {
+			c.recv[s] = nil
 		}
 	}
-	for s := range all {
-		sort.Slice(all[s], func(i, j int) bool { return all[s][i].Start < all[s][j].Start })
+}
+
+// hook-driven schedule: client 0 unsubscribes; if its unsubscribe reaches StopSendingEvents it is
+// held there while client 1 subscribes completely, then released; then writes.  (On a tree that
+// never stops sending events the hook is not reached and the schedule is the sequential one.)
+func runStopRace(srv *rig.Server, ci int, c *ccase) {
+	r := newRunner(srv, ci, c)
+	w := func(ops ...wop) { ph := phase{Writers: [][]wop{ops}}; r.runWriters(&ph); c.Phases = append(c.Phases, ph) }
+	set := func(k int, v int64) wop { return wop{Kind: "set", Key: k, Req: v} }
+	w(set(0, 1))
+	other := ci%2 == 0 // a third client that stays subscribed all the time: nobody may stop then
+	if other {
+		r.churn(phase{Sub: []int{2}})
 	}
-	c.recv = all
-	// leave nothing behind
-	_, _ = srv.GW.Destroy(ctx, &hydrapb.DestroyRequest{IslandID: island, SwampName: swamp})
+	r.churn(phase{Sub: []int{0}})
+	w(set(0, 2))
+	reached := make(chan struct{}, 1)
+	release := make(chan struct{})
+	var once sync.Once
+	verifhook.Install(func(site string, _ int64, _ []int64) {
+		if site == "swamp.stopSendingEvents" {
+			hold := false
+			once.Do(func() { hold = true })
+			if hold {
+				reached <- struct{}{}
+				<-release
+			}
+		}
+	})
+	done := make(chan struct{})
+	go func() { r.stopSub(0); close(done) }()
+	held := false
+	select {
+	case <-reached:
+		held = true
+	case <-done:
+	case <-time.After(5 * time.Second):
+		r.errf("unsubscribe neither finished nor reached StopSendingEvents")
+	}
+	r.nsubbed--
+	c.history = append(c.history, "CUnsub 0")
+	r.startSub(1)
+	r.nsubbed++
+	r.settle(r.nsubbed)
+	r.settleActive()
+	c.history = append(c.history, "CSub 1")
+	close(release)
+	<-done
+	verifhook.Install(nil)
+	if held {
+		c.Kind += "-held"
+	}
+	w(set(0, 3), set(1, 5), wop{Kind: "delete", Key: 0}, set(0, 7))
+	r.finish()
 }
 
 func stTerm(s string) string {
@@ -462,7 +769,11 @@ func caseTerm(c *ccase) string {
 		}
 		recv[s] = fmt.Sprintf("(%d, %s)", s, common.List(ms))
 	}
-	keys := make([]string, c.NKeys)
+	nk := c.NKeys
+	if c.anchor {
+		nk++
+	}
+	keys := make([]string, nk)
 	for k := range keys {
 		keys[k] = strconv.Itoa(k)
 	}
@@ -483,6 +794,8 @@ func main() {
 	defer os.RemoveAll(root)
 	srv := rig.Start(root, true)
 	srv.Register("c19p/*/*", false, 3600, 1, 65536)
+	srv.Register("c19w/*/*", false, 3600, 0, 65536) // write-through: SaveFunction releases the guard before writing
+	srv.Register("c19i/*/*", false, 1, 1, 65536)    // idle close after 1 s
 	srv.Register("c19m/*/*", true, 3600, 0, 0)
 
 	rng := common.NewRng(args.Seed, "C19")
@@ -494,7 +807,16 @@ func main() {
 	for len(cases) < n {
 		cases = append(cases, genCase(rng.Fork("case"), 0))
 	}
-	common.Parallel(len(cases), 6, func(i int) { runCase(srv, i, cases[i]) })
+	common.Parallel(len(cases), 8, func(i int) {
+		if !cases[i].StopRace {
+			runCase(srv, i, cases[i])
+		}
+	})
+	for i, c := range cases { // the hook controller is process-wide: one at a time
+		if c.StopRace {
+			runStopRace(srv, i, c)
+		}
+	}
 	for _, c := range cases {
 		events, conc, dels, noops := 0, false, 0, 0
 		for _, r := range c.recv {
@@ -517,7 +839,17 @@ func main() {
 				}
 			}
 			run.Hist(fmt.Sprintf("writers_%d", len(ph.Writers)))
+			if len(ph.Shared) > 0 {
+				run.Hist("phase_same_key_concurrency")
+			}
+			if ph.Pre != "" {
+				run.Hist("phase_pre_" + ph.Pre)
+			}
+			if ph.Churn && len(ph.Sub)+len(ph.Unsub) > 1 {
+				run.Hist("phase_concurrent_churn")
+			}
 		}
+		run.Hist("pattern_" + c.Pattern)
 		run.HistN("events_received", events)
 		run.HistN("overlapping_sendmsg_seen_by_stream", c.overlap)
 		run.Hist("kind_" + c.Kind)
@@ -525,6 +857,10 @@ func main() {
 		idx := run.Add(caseTerm(c), map[string]any{"case": c, "received": c.recv}, nt)
 		for _, e := range c.errs {
 			run.Violate(idx, "harness", "operation_failed", e)
+		}
+		if c.lost != "" {
+			run.Hist("concurrent_first_subscribers_one_lost")
+			run.Violate(idx, "a subscribed client receives the events of its window", "concurrent_first_subscribers_one_lost", c.lost)
 		}
 	}
 	run.Meta.Traces = len(cases)
